@@ -327,6 +327,9 @@ func Enumerate(corpus []*CorpusFile, tier string, seed uint64, visit func(idx in
 			if f.Big {
 				stride = 4099
 			}
+			if f.Huge {
+				stride = 131101
+			}
 			for k := len(f.Data); k >= 0; k -= stride {
 				k := k
 				d := deliveryModes(k, choice.Derive(hseed, fmt.Sprint(k)))[int(choice.Derive(hseed, fmt.Sprint("m", k))%6)]
@@ -393,7 +396,7 @@ func Enumerate(corpus []*CorpusFile, tier string, seed uint64, visit func(idx in
 					repls = allBytes
 				}
 				for k := 0; k < len(base); k++ {
-					if f.Big && !(k < 300 || k%211 == 0) {
+					if f.Big && !(k < 300 || k%211 == 0) || f.Huge && k >= 64 {
 						continue
 					}
 					for ri, rf := range repls {
@@ -418,7 +421,7 @@ func Enumerate(corpus []*CorpusFile, tier string, seed uint64, visit func(idx in
 				// every line deleted / duplicated (ASCII part only)
 				for li, ln := range lineSpans(base[:asciiPart(kind, f, base)]) {
 					ln := ln
-					if f.Big && li > 40 && li%53 != 0 {
+					if f.Big && li > 40 && li%53 != 0 || f.Huge && li > 4 {
 						continue
 					}
 					for _, dup := range []bool{false, true} {
@@ -446,7 +449,7 @@ func Enumerate(corpus []*CorpusFile, tier string, seed uint64, visit func(idx in
 				// that only some routines recognise (Unicode spaces, BOM, vertical tab)
 				for li, ln := range lineSpans(base[:asciiPart(kind, f, base)]) {
 					ln := ln
-					if f.Big && li > 40 && li%53 != 0 {
+					if f.Big && li > 40 && li%53 != 0 || f.Huge && li > 4 {
 						continue
 					}
 					for wi, ws := range oddSpaces {
@@ -585,6 +588,13 @@ func Enumerate(corpus []*CorpusFile, tier string, seed uint64, visit func(idx in
 func keepOffset(f *CorpusFile, k, n int) bool {
 	if !f.Big {
 		return true
+	}
+	if f.Huge {
+		if k < 64 || k > n-64 {
+			return true
+		}
+		r := k % 65536
+		return r < 2 || r > 65536-2
 	}
 	if k < 300 || k > n-300 || k%97 == 0 {
 		return true
